@@ -28,8 +28,10 @@ XML_HANDLERS = {"do_PROPFIND": "radicale/app/propfind.py", "do_PROPPATCH": "radi
                 "do_REPORT": "radicale/app/report.py", "do_MKCOL": "radicale/app/mkcol.py",
                 "do_MKCALENDAR": "radicale/app/mkcalendar.py"}
 PARSE_FUNCS = {"fromstring", "XML", "XMLID", "parse", "iterparse", "XMLParser", "XMLPullParser", "fromstringlist",
-               "parseString", "make_parser", "ParserCreate", "TreeBuilder"}
-XML_MODULES = ("xml.etree", "xml.dom", "xml.sax", "xml.parsers", "defusedxml", "lxml", "xmltodict", "pyexpat", "bs4")
+               "parseString", "make_parser", "ParserCreate", "HTML", "HTMLParser", "ETCompatXMLParser", "XMLTreeBuilder",
+               "parseStringToDOM", "expatbuilder", "unparse"}
+XML_MODULES = ("xml.etree", "xml.dom", "xml.sax", "xml.parsers", "xml", "defusedxml", "lxml", "xmltodict", "pyexpat", "bs4",
+               "html5lib", "untangle", "xmlschema")
 CLASSES = {"RuntimeError": "CRuntimeError", "socket.timeout": "CSocketTimeout", "TimeoutError": "CSocketTimeout",
            "ValueError": "CValueError", "ET.ParseError": "CParseError", "Exception": "CException",
            "LookupError": "CLookupError"}
@@ -39,6 +41,10 @@ CONSTS = ("BAD_REQUEST", "REQUEST_TIMEOUT", "INTERNAL_SERVER_ERROR")
 
 class Unsupported(Exception):
     pass
+
+
+def is_xml_mod(name):
+    return any(name == m or name.startswith(m + ".") for m in XML_MODULES)
 
 
 def parse_file(repo, rel):
@@ -82,13 +88,18 @@ def parse_sites(repo):
             for n in ast.walk(tree):
                 if isinstance(n, ast.Import):
                     for a in n.names:
-                        if a.name.startswith(XML_MODULES):
+                        if is_xml_mod(a.name):
                             aliases[a.asname or a.name.split(".")[0]] = a.name
-                elif isinstance(n, ast.ImportFrom) and n.module and n.module.startswith(XML_MODULES):
+                elif isinstance(n, ast.ImportFrom) and n.module and is_xml_mod(n.module):
                     for a in n.names:
                         aliases[a.asname or a.name] = n.module + "." + a.name
+            for n in ast.walk(tree):
+                if isinstance(n, ast.Call) and dotted(n.func) in ("importlib.import_module", "import_module", "__import__") \
+                        and n.args and isinstance(n.args[0], ast.Constant) and isinstance(n.args[0].value, str) \
+                        and is_xml_mod(n.args[0].value):
+                    sites.append((rel, "import:" + n.args[0].value))
             for alias, mod in sorted(aliases.items()):
-                if not (mod == "xml.etree.ElementTree" or mod == "defusedxml.ElementTree"):
+                if not (mod in ("xml.etree.ElementTree", "defusedxml.ElementTree", "xml.etree")):
                     sites.append((rel, "import:" + mod))
             for n in ast.walk(tree):
                 if isinstance(n, ast.Call):
@@ -330,46 +341,59 @@ Open Scope string_scope.
 
 
 def generate(repo, outdir):
+    """Every table is produced on its own: when one part of the source has an unexpected shape, that table gets a value that
+    makes its Gen_xml_* lemma false (and the reason is recorded in the file and in the error text), the others -- in particular
+    the list of parse sites -- are still emitted, so that the broken obligation names what changed."""
     errors = {}
+    problems = []
     path = os.path.join(outdir, "XmlGen.v")
-    try:
-        sites = parse_sites(repo)
-        calls = [s for s in sites if len(s) == 4]
-        others = [s for s in sites if len(s) == 2]
-        site_call = None
-        for rel, d, mod, node in calls:
-            if rel == "radicale/app/base.py" and d == "DefusedET.fromstring":
-                site_call = node
+
+    def part(fn, default):
+        try:
+            return fn()
+        except (Unsupported, SyntaxError, OSError, AttributeError, IndexError, ValueError, TypeError) as e:
+            problems.append(str(e))
+            return default
+
+    sites = part(lambda: parse_sites(repo), None)
+    listed, site_call = [("<translation failed>", "<translation failed>")], None
+    if sites is not None:
+        calls = [x for x in sites if len(x) == 4]
+        others = [x for x in sites if len(x) == 2]
+        expected = [x for x in calls if x[0] == "radicale/app/base.py" and x[1] == "DefusedET.fromstring"]
+        site_call = expected[0][3] if expected else None
         listed = [(rel, d) for rel, d, mod, node in calls] + others
-        if site_call is None:
-            # still emit the list so that the lemma names the difference
-            kw, rewrap = {"forbid_dtd": False, "forbid_entities": False, "forbid_external": False}, []
-            shape_ok = False
-        else:
-            kw, rewrap = read_shape(repo, site_call)
-            shape_ok = True
-        hc = handler_clauses(repo)
-        cs = constants(repo)
-        tc = top_clause(repo)
-        fb, supp = charsets(repo)
-        parts = [HEADER]
-        parts.append("Definition gen_parse_sites : list (string * string) :=\n  [%s].\n\n" % ";\n   ".join(
-            "(%s, %s)" % (cstr(a), cstr(b)) for a, b in listed))
-        parts.append("Definition gen_read_shape_ok : bool := %s.\n" % cbool(shape_ok))
-        for k in ("forbid_dtd", "forbid_entities", "forbid_external"):
-            parts.append("Definition gen_%s : bool := %s.\n" % (k, cbool(kw[k])))
-        parts.append("\nDefinition gen_parse_rewrap : list (eclass * exn) := [%s].\n\n" % "; ".join("(%s, %s)" % x for x in rewrap))
-        parts.append("Definition gen_handler_clauses : list (string * list (eclass * rconst)) :=\n  [%s].\n\n" % ";\n   ".join(
-            "(%s, [%s])" % (cstr(m), "; ".join("(%s, %s)" % x for x in cl)) for m, cl in sorted(hc.items())))
-        parts.append("Definition gen_const : list (rconst * (N * string * string)) :=\n  [%s].\n\n" % ";\n   ".join(
-            "(%s, (%d, %s, %s))" % (c, cs[c][0], cstr(cs[c][1]), cstr(cs[c][2])) for c in CONSTS))
-        parts.append("Definition gen_top_clause : eclass * rconst := (%s, %s).\n\n" % tc)
-        parts.append("Definition gen_fallback_charsets : list string := [%s].\n" % "; ".join(cstr(x) for x in fb))
-        parts.append("Definition gen_suppressed : list string := [%s].\n" % "; ".join(cstr(x) for x in supp))
-        text = "".join(parts)
-    except (Unsupported, SyntaxError, OSError) as e:
-        errors["XmlGen"] = "translate:c19xml: %s" % e
-        text = "(* translation failed: %s *)\nDefinition translation_failed : False := I.\n" % str(e).replace("*)", "* )")
+    kw0 = {"forbid_dtd": False, "forbid_entities": False, "forbid_external": False}
+    if site_call is None:
+        problems.append("no call DefusedET.fromstring in radicale/app/base.py")
+        shape = None
+    else:
+        shape = part(lambda: read_shape(repo, site_call), None)
+    kw, rewrap = shape if shape is not None else (kw0, [])
+    hc = part(lambda: handler_clauses(repo), {})
+    cs = part(lambda: constants(repo), {})
+    tc = part(lambda: top_clause(repo), ("CParseError", "BAD_REQUEST"))      # a value Gen_xml_top_eq refutes
+    fb, supp = part(lambda: charsets(repo), ([], []))
+    parts = [HEADER]
+    for pr in problems:
+        parts.append("(* NOT AS EXPECTED: %s *)\n" % pr.replace("*)", "* )").replace("(*", "( *"))
+    parts.append("\n(* every call that parses XML, anywhere in radicale/ (tests excluded), in source order *)\n")
+    parts.append("Definition gen_parse_sites : list (string * string) :=\n  [%s].\n\n" % ";\n   ".join(
+        "(%s, %s)" % (cstr(a), cstr(b)) for a, b in listed))
+    parts.append("Definition gen_read_shape_ok : bool := %s.\n" % cbool(shape is not None))
+    for k in ("forbid_dtd", "forbid_entities", "forbid_external"):
+        parts.append("Definition gen_%s : bool := %s.\n" % (k, cbool(kw[k])))
+    parts.append("\nDefinition gen_parse_rewrap : list (eclass * exn) := [%s].\n\n" % "; ".join("(%s, %s)" % x for x in rewrap))
+    parts.append("Definition gen_handler_clauses : list (string * list (eclass * rconst)) :=\n  [%s].\n\n" % ";\n   ".join(
+        "(%s, [%s])" % (cstr(m), "; ".join("(%s, %s)" % x for x in cl)) for m, cl in sorted(hc.items())))
+    parts.append("Definition gen_const : list (rconst * (N * string * string)) :=\n  [%s].\n\n" % ";\n   ".join(
+        "(%s, (%d, %s, %s))" % (c, cs[c][0], cstr(cs[c][1]), cstr(cs[c][2])) for c in CONSTS if c in cs))
+    parts.append("Definition gen_top_clause : eclass * rconst := (%s, %s).\n\n" % tc)
+    parts.append("Definition gen_fallback_charsets : list string := [%s].\n" % "; ".join(cstr(x) for x in fb))
+    parts.append("Definition gen_suppressed : list string := [%s].\n" % "; ".join(cstr(x) for x in supp))
+    text = "".join(parts)
+    if problems:
+        errors["XmlGen"] = "translate:c19xml: " + " | ".join(problems)
     os.makedirs(outdir, exist_ok=True)
     old = None
     if os.path.exists(path):
